@@ -196,24 +196,27 @@ class Session:
         sess = self
 
         async def step(agent_id, agent_state, action):
+            o = sess.oracle.setdefault(agent_id[1] - 40000, {})
             try:
                 r = await orig_step(agent_id=agent_id, agent_state=agent_state, action=action)
             except Exception:
-                sess.oracle["stepView"] = None
-                sess.oracle["stepCalled"] = True
+                o["stepView"] = None
+                o["stepCalled"] = True
                 raise
-            sess.oracle["stepView"] = C.view2j(r)
-            sess.oracle["stepCalled"] = True
+            o["stepView"] = C.view2j(r)
+            o["stepCalled"] = True
             return r
 
         async def register_agent(agent_id, agent_role, agent_initial_view):
             r = await orig_reg(agent_id, agent_role, agent_initial_view)
-            sess.oracle["initView"] = C.view2j(r)
+            sess.oracle.setdefault(agent_id[1] - 40000, {})["initView"] = C.view2j(r)
             return r
 
         async def reset_agent(agent_id, agent_role, agent_initial_view):
             r = await orig_reset_agent(agent_id, agent_role, agent_initial_view)
-            sess.oracle.setdefault("resetView", []).append([agent_id[1] - 40000, C.view2j(r)])
+            # the latest reset wins (several resets inside one burst are possible)
+            rv = sess.oracle.setdefault("reset", {})
+            rv[agent_id[1] - 40000] = C.view2j(r)
             return r
         co.step, co.register_agent, co.reset_agent = step, register_agent, reset_agent
         self._orig_random = GD.random
@@ -315,92 +318,50 @@ class Session:
 
     # ---------------------------------------------------------------- one event on both sides
     def _oracle_json(self, cid):
-        o = self.oracle
+        o = self.oracle.get(cid, {})
         fr = Fraction(self.roll)
         return {"stepView": o.get("stepView") if o.get("stepCalled") else None, "initView": o.get("initView"),
-                "resetView": o.get("resetView", []), "roll": [fr.numerator, fr.denominator]}
+                "resetView": [[c, v] for c, v in sorted(self.oracle.get("reset", {}).items())], "roll": [fr.numerator, fr.denominator]}
 
-    def do(self, ev):
-        """ev: dict(t=connect|msg|eof|readerr|arm|quit..., c=cid, ...). Executes, compares, runs oracles."""
-        if self.broken:
-            return
+    def _apply_real(self, ev):
+        """feeds one event into the real coordinator WITHOUT settling; returns the model events it stands for"""
         t, cid = ev["t"], ev["c"]
-        self.oracle = {}
-        self.roll = ev.get("roll", 0.5)
-        log = {k: v for k, v in ev.items() if k not in ("raw_bytes", "action")}
-        if "raw_bytes" in ev:
-            log["raw_hex"] = ev["raw_bytes"].hex()
-        self.events.append(log)
-        before = self.real_state()
-        model_events = []
         if t == "connect":
-            self.sim.connect(cid)
-            if not self.sim.conns[cid].task.done():
-                self.alive.add(cid)
-            model_events.append({"t": "connect", "c": cid})
-        elif t == "msg":
+            self.sim.connect(cid, settle=False)
+            return [{"t": "connect", "c": cid}]
+        if t == "msg":
             if cid in self.awaiting or self.sim.conns[cid].task.done():
-                return
+                return None
             self.awaiting[cid] = ev["m"]
-            self.sim.send(cid, ev["raw_bytes"])
-            model_events.append({"t": "msg", "c": cid, "m": ev["m"], "o": None})
-        elif t in ("eof", "readerr"):
+            self.sim.feed_raw(cid, ev["raw_bytes"])
+            return [{"t": "msg", "c": cid, "m": ev["m"], "o": None}]
+        if t in ("eof", "readerr"):
             if self.sim.conns[cid].task.done() or cid in self.pending_leave:
-                return
+                return None
             if t == "eof":
-                self.sim.eof(cid)
+                self.sim.eof(cid, settle=False)
             else:
                 exc = {"reset": ConnectionResetError("reset"), "timeout": TimeoutError("timed out"), "unreach": OSError(113, "No route to host"),
                        "pipe": BrokenPipeError("pipe"), "incomplete": EOFError("incomplete")}[ev.get("exc", "reset")]
-                self.sim.read_error(cid, exc=exc)
+                self.sim.read_error(cid, settle=False, exc=exc)
             if cid in self.awaiting:
                 self.pending_leave[cid] = t       # noticed by the handler only after its reply was written
-            else:
-                model_events.append({"t": "leave", "c": cid, "o": None})
-        elif t == "arm":
+                return []
+            return [{"t": "leave", "c": cid, "o": None}]
+        if t == "arm":
             if self.sim.conns[cid].task.done():
-                return
+                return None
             self.sim.arm_write_error(cid, drain=ev.get("drain", False))
-            model_events.append({"t": "arm", "c": cid})
-        real_outs = self.parse_real_outputs()
-        # ---- model side (after the real run, so that oracle values are known)
-        model_outs = []
-        ms = None
-        queue = list(model_events)
-        guard = 0
-        while queue:
-            guard += 1
-            if guard > 50:
-                break
-            me = queue.pop(0)
-            if "o" in me:
-                me["o"] = self._oracle_json(cid)
-            rep = self.drv.ask({"op": "ev", "ev": me, "full": True})
-            ms = rep["state"]
-            for o in rep["out"]:
-                model_outs.append(o)
-                # follow-ups the real code performs inside the same run to quiescence
-                if o["k"] == "lost":
-                    queue.append({"t": "leave", "c": o["c"], "o": None})
-                elif o["k"] == "reply" and o["c"] in self.pending_leave:
-                    queue.append({"t": "leave", "c": o["c"], "o": None})
-                    del self.pending_leave[o["c"]]
-        if ms is not None:
-            self.model_state = ms
-        self.compare(ev, before, real_outs, model_outs)
+            return [{"t": "arm", "c": cid}]
+        return None
 
-    # ---------------------------------------------------------------- comparison + oracles
-    def compare(self, ev, before, real_outs, model_outs):
-        t, cid = ev["t"], ev["c"]
-        S = self.stats
-        S["events"] = S.get("events", 0) + 1
-        kind = ev["m"]["k"] if t == "msg" else t
-        S.setdefault("by_kind", {})
-        S["by_kind"][kind] = S["by_kind"].get(kind, 0) + 1
-        # bookkeeping of answered requests
+    def _book(self, real_outs):
+        """answered-exactly-once bookkeeping on the real outputs"""
+        seen_reply = {}
         for o in real_outs:
             c = o["c"]
             if o["k"] == "reply":
+                seen_reply[c] = seen_reply.get(c, 0) + 1
                 if c not in self.awaiting:
                     self.fail({"C01"}, "unsolicited", f"connection {c} received a response ({o.get('code')}) nobody asked for", self.replay())
                 else:
@@ -408,15 +369,138 @@ class Session:
             elif o["k"] == "closed":
                 self.awaiting.pop(c, None)
                 self.alive.discard(c)
-        if len([o for o in real_outs if o["k"] == "reply" and o["c"] == cid]) > 1:
-            self.fail({"C01"}, "double-reply", f"connection {cid} received more than one response to one message", self.replay())
-        # ---- per-connection output comparison with the model
+        for c, n in seen_reply.items():
+            if n > 1:
+                self.fail({"C01"}, "double-reply", f"connection {c} received {n} responses in one run", self.replay())
+
+    def _run_model(self, model_events, pending, front=True):
+        """runs the model on the events in this order (plus the follow-ups the real code performs inside the
+        same run to quiescence). Returns (outputs, state, remaining pending leaves)."""
+        outs, ms = [], None
+        pending = dict(pending)
+        queue = [dict(m) for m in model_events]
+        guard = 0
+        while queue:
+            guard += 1
+            if guard > 80:
+                break
+            me = queue.pop(0)
+            if "o" in me:
+                me["o"] = self._oracle_json(me["c"])
+            rep = self.drv.ask({"op": "ev", "ev": me, "full": True})
+            ms = rep["state"]
+            for o in rep["out"]:
+                outs.append(o)
+                # follow-ups the real code performs inside the same run: the handler's cleanup runs at once
+                # (the slot is freed at once; the QuitGame on the agent's behalf queues behind messages already
+                # forwarded - so both placements are tried by the caller)
+                pos = 0 if front else len(queue)
+                if o["k"] == "lost":
+                    queue.insert(pos, {"t": "leave", "c": o["c"], "o": None})
+                elif o["k"] == "reply" and o["c"] in pending:
+                    queue.insert(pos, {"t": "leave", "c": o["c"], "o": None})
+                    del pending[o["c"]]
+        return outs, ms, pending
+
+    def do(self, ev):
+        self.do_burst([ev], [0])
+
+    def do_burst(self, evs, gaps):
+        """evs delivered into the SAME run of the event loop: after feeding event i the loop runs gaps[i]
+        iterations, after the last one it runs to quiescence. The real outcome must equal the model's outcome
+        for at least one sequential order of the events (linearizability w.r.t. the proved sequential model)."""
+        if self.broken:
+            return
+        import itertools
+        self.oracle = {}
+        self.roll = evs[0].get("roll", 0.5)
+        self.burst_id = getattr(self, "burst_id", 0) + 1
+        before = self.real_state()
+        pending_before = dict(self.pending_leave)
+        groups = []
+        applied = []
+        for ev, gap in zip(evs, gaps):
+            log = {k: v for k, v in ev.items() if k not in ("raw_bytes", "action")}
+            if "raw_bytes" in ev:
+                log["raw_hex"] = ev["raw_bytes"].hex()
+            if len(evs) > 1:
+                log["burst_gap"] = gap
+                log["burst"] = self.burst_id
+            mes = self._apply_real(ev)
+            if mes is None:
+                continue
+            self.events.append(log)
+            applied.append(ev)
+            if mes:
+                groups.append(mes)
+            if gap:
+                self.sim.run_iterations(gap)
+        if not applied:
+            return
+        self.sim.settle()
+        for c in self.sim.conns:
+            if not self.sim.conns[c].task.done():
+                self.alive.add(c)
+        real_outs = self.parse_real_outputs()
+        self._book(real_outs)
+        if len(applied) > 1:
+            self.stats["bursts"] = self.stats.get("bursts", 0) + 1
+        # ---- model side: try the sequential orders
+        chosen = None
+        first = None
+        orders = list(itertools.permutations(range(len(groups)))) if len(groups) > 1 else [tuple(range(len(groups)))]
+        orders = [(o, True) for o in orders] + ([(o, False) for o in orders] if len(groups) > 1 else [])
+        if len(orders) > 1:
+            self.drv.ask({"op": "snapshot"})
+        prev_state = self.model_state
+        for oi, (order, front) in enumerate(orders):
+            if oi > 0:
+                self.drv.ask({"op": "restore"})
+            mes = [m for gi in order for m in groups[gi]]
+            outs, ms, pend = self._run_model(mes, self.pending_leave, front)
+            if ms is None:
+                ms = prev_state
+            diffs = self.diff(applied[0] if len(applied) == 1 else {"t": "burst", "c": applied[0]["c"]}, real_outs, outs, ms)
+            if first is None:
+                first = (outs, ms, pend, diffs)
+            if not diffs:
+                chosen = (outs, ms, pend, diffs)
+                if oi > 0:
+                    self.stats["reordered_bursts"] = self.stats.get("reordered_bursts", 0) + 1
+                break
+        if chosen is None:
+            chosen = first
+            if len(orders) > 1:
+                self.drv.ask({"op": "restore"})
+                self._run_model([m for g in groups for m in g], self.pending_leave)
+        outs, ms, pend, diffs = chosen
+        self.pending_leave = pend
+        if ms is not None:
+            self.model_state = ms
+        ev0 = applied[0] if len(applied) == 1 else {"t": "burst", "c": applied[0]["c"], "kinds": [(e["m"]["k"] if e["t"] == "msg" else e["t"]) for e in applied]}
+        for tags, sig, desc in diffs:
+            if len(applied) > 1:
+                sig = "schedule:" + sig
+                desc = f"events {ev0['kinds']} arriving in the same run of the event loop (gaps {list(gaps)}): no sequential order of them explains the outcome; for the order as sent: " + desc
+            self.fail(tags, sig, desc, self.replay())
+            if sig.split(":")[0] in ("outputs", "state", "agent", "schedule"):
+                self.broken = True
+        self.after_event(ev0, before, real_outs)
+
+    # ---------------------------------------------------------------- comparison (pure) + oracles
+    def diff(self, ev, real_outs, model_outs, model_state):
+        """list of (tags, signature, description): where the real outputs / state differ from the model's"""
+        out = []
+        t, cid = ev["t"], ev["c"]
+        kind = ev["m"]["k"] if t == "msg" else t
+
         def per_conn(outs):
             d = {}
             for o in outs:
                 d.setdefault(o["c"], []).append(o)
             return d
         R, M = per_conn(real_outs), per_conn([o for o in model_outs if o["k"] != "lost"])
+        bad_shape = False
         for c in sorted(set(R) | set(M)):
             ro, mo = R.get(c, []), M.get(c, [])
             rk = [(o["k"], o.get("code")) for o in ro]
@@ -426,51 +510,93 @@ class Session:
                 codes = {x[1] for x in rk} ^ {x[1] for x in mk}
                 if kind == "bad" or "BAD_REQUEST" in codes:
                     tags.add("C09")
-                if "CREATED" in codes or (("OK", ) and any(o.get("obs", {}) and o["obs"].get("end") for o in ro + mo if o["k"] == "reply")):
+                if "CREATED" in codes or any(o.get("obs") and o["obs"].get("end") for o in ro + mo if o["k"] == "reply"):
                     tags.add("C06")
                 if "RESET_DONE" in codes or kind == "reset":
                     tags.add("C07")
                 if "FORBIDDEN" in codes:
                     tags.add("C04")
-                if kind in ("eof", "readerr", "quit", "arm") or c != cid:
+                if kind in ("eof", "readerr", "quit", "arm", "burst") or c != cid:
                     tags.add("C10")
                 if kind == "connect" or any(x[0] == "closed" for x in rk + mk):
                     tags.add("C18")
-                self.fail(tags, f"outputs:{kind}:{'->'.join(str(x[1] or x[0]) for x in rk)}|{'->'.join(str(x[1] or x[0]) for x in mk)}",
-                          f"after {kind} on connection {cid}: connection {c} got {rk} from the real coordinator, the proved model says {mk}", self.replay())
-                self.broken = True
+                out.append((tags, f"outputs:{kind}:{'->'.join(str(x[1] or x[0]) for x in rk)}|{'->'.join(str(x[1] or x[0]) for x in mk)}",
+                            f"after {kind} on connection {cid}: connection {c} got {rk} from the real coordinator, the proved model says {mk}"))
+                bad_shape = True
                 continue
             for o, m in zip(ro, mo):
                 if o["k"] != "reply":
                     continue
                 if ("obs" in o) != (m.get("obs") is not None):
-                    self.fail({"C01", "C15"}, f"obs-presence:{kind}", f"observation present in real reply: {'obs' in o}, in model: {m.get('obs') is not None}", self.replay())
+                    out.append(({"C01", "C15"}, f"obs-presence:{kind}", f"observation present in real reply: {'obs' in o}, in model: {m.get('obs') is not None}"))
                     continue
                 if "obs" in o:
                     mob = m["obs"]
                     mv = C.canon_view(mob["view"])
                     if o["obs"]["view"] != mv:
-                        self.fail({"C15", "C12", "C07" if o.get("code") == "RESET_DONE" else "C04"}, f"view:{o.get('code')}",
-                                  f"{o.get('code')} reply to {c}: the view sent differs from the view the model (fed with the world's own results) holds", self.replay())
+                        out.append(({"C15", "C12", "C07" if o.get("code") == "RESET_DONE" else "C04"}, f"view:{o.get('code')}",
+                                    f"{o.get('code')} reply to {c}: the view sent differs from the view the model (fed with the world's own results) holds"))
                     if o["obs"]["reward"] != mob["reward"]:
-                        self.fail({"C05"} | ({"C07"} if o.get("code") == "RESET_DONE" else set()) | ({"C06"} if o["obs"]["end"] else set()), f"reward:{o.get('code')}:{kind}",
-                                  f"{o.get('code')} reply to {c}: reward {o['obs']['reward']} but the reward rule gives {mob['reward']}", self.replay())
+                        out.append(({"C05"} | ({"C07"} if o.get("code") == "RESET_DONE" else set()) | ({"C06"} if o["obs"]["end"] else set()), f"reward:{o.get('code')}:{kind}",
+                                    f"{o.get('code')} reply to {c}: reward {o['obs']['reward']} but the reward rule gives {mob['reward']}"))
                     if o["obs"]["end"] != mob["end"] or o["obs"]["reason"] != mob["reason"]:
-                        self.fail({"C04"} | ({"C17"} if "Fail" in (o["obs"]["reason"], mob["reason"]) else set()), f"end:{o.get('code')}:{o['obs']['end']},{o['obs']['reason']}|{mob['end']},{mob['reason']}",
-                                  f"{o.get('code')} reply to {c}: end={o['obs']['end']} reason={o['obs']['reason']} but the end rule gives end={mob['end']} reason={mob['reason']}", self.replay())
+                        out.append(({"C04"} | ({"C17"} if "Fail" in (o["obs"]["reason"], mob["reason"]) else set()), f"end:{o.get('code')}:{o['obs']['end']},{o['obs']['reason']}|{mob['end']},{mob['reason']}",
+                                    f"{o.get('code')} reply to {c}: end={o['obs']['end']} reason={o['obs']['reason']} but the end rule gives end={mob['end']} reason={mob['reason']}"))
                 if m.get("hasMaxSteps") and o.get("maxSteps", "absent") != m.get("maxSteps"):
-                    self.fail({"C19", "C07"}, "maxsteps", f"max_steps announced {o.get('maxSteps')} vs configured {m.get('maxSteps')}", self.replay())
+                    out.append(({"C19", "C07"}, "maxsteps", f"max_steps announced {o.get('maxSteps')} vs configured {m.get('maxSteps')}"))
                 if (m.get("traj") is not None) != ("traj" in o):
-                    self.fail({"C16", "C07"}, "traj-attached", f"last_trajectory attached: real {'traj' in o}, requested: {m.get('traj') is not None}", self.replay())
+                    out.append(({"C16", "C07"}, "traj-attached", f"last_trajectory attached: real {'traj' in o}, requested: {m.get('traj') is not None}"))
                 elif "traj" in o:
                     mt = m["traj"]
                     mstates = [C.canon_view(mt["init"])] + [C.canon_view(x["view"]) for x in mt["steps"]]
                     mrew = [x["reward"] for x in mt["steps"]]
                     if o["traj"]["n_states"] != o["traj"]["n_actions"] + 1 or len(o["traj"]["rewards"]) != o["traj"]["n_actions"]:
-                        self.fail({"C16"}, "traj-shape", f"trajectory with {o['traj']['n_states']} states, {o['traj']['n_actions']} actions, {len(o['traj']['rewards'])} rewards", self.replay())
+                        out.append(({"C16"}, "traj-shape", f"trajectory with {o['traj']['n_states']} states, {o['traj']['n_actions']} actions, {len(o['traj']['rewards'])} rewards"))
                     if o["traj"]["rewards"] != mrew or o["traj"]["states"] != mstates:
-                        self.fail({"C16"}, "traj-content", f"last_trajectory of {c} differs from what the model recorded: rewards {o['traj']['rewards']} vs {mrew}; states equal: {o['traj']['states'] == mstates}", self.replay())
-        # ---- independent trace oracles (C05 bonus once, C16 trajectory = sent, C04 absorbing)
+                        out.append(({"C16"}, "traj-content", f"last_trajectory of {c} differs from what the model recorded: rewards {o['traj']['rewards']} vs {mrew}; states equal: {o['traj']['states'] == mstates}"))
+        if model_state is not None and not bad_shape:
+            out += self.diff_state(kind, cid, self.real_state(), self.model_state_canon(model_state))
+        return out
+
+    def diff_state(self, kind, cid, rs, mc):
+        tags_for = {"slots": {"C18"}, "ids": {"C10", "C06"}, "startEv": {"C06"}, "conns": {"C01", "C18"}}
+        for f in ("slots", "ids", "startEv", "conns"):
+            if rs[f] != mc[f]:
+                tags = set(tags_for[f])
+                if kind in ("eof", "readerr", "quit", "arm", "burst"):
+                    tags.add("C10")
+                if kind == "bad":
+                    tags.add("C09")
+                return [(tags, f"state:{f}:{kind}", f"after {kind} on {cid}: coordinator {f} = {rs[f]}, model {mc[f]}")]
+        ra, ma = dict((c, a) for c, a in rs["agents"]), dict((c, a) for c, a in mc["agents"])
+        field_tags = {"view": {"C12", "C07"}, "steps": {"C04", "C07"}, "status": {"C04"}, "ended": {"C04", "C06"},
+                      "resetReq": {"C07"}, "reward": {"C05"}, "paid": {"C05"}, "obs": {"C15", "C04"},
+                      "traj_len": {"C16"}, "traj_rewards": {"C16"}, "traj_states": {"C16"}, "name": {"C19"}, "role": {"C19"}}
+        for c in ra:
+            for f, tg in field_tags.items():
+                if ra[c][f] != ma[c][f]:
+                    tags = set(tg)
+                    if kind == "bad":
+                        tags.add("C09")
+                    if kind in ("eof", "readerr", "quit", "arm", "burst") or c != cid:
+                        tags.add("C10")
+                    if c != cid:
+                        tags.add("C12")
+                    if kind == "reset" or (f in ("view", "steps", "status", "ended") and not ra[c]["resetReq"] and c != cid):
+                        tags.add("C07")
+                    return [(tags, f"agent:{f}:{kind}:{'self' if c == cid else 'other'}",
+                             f"after {kind} on {cid}: agent {c} {f} = {str(ra[c][f])[:200]} in the coordinator, {str(ma[c][f])[:200]} in the model")]
+        return []
+
+    def after_event(self, ev, before, real_outs):
+        """bookkeeping + oracles written from the property statements, evaluated on the real trace"""
+        t, cid = ev["t"], ev["c"]
+        S = self.stats
+        S["events"] = S.get("events", 0) + 1
+        kind = ev["m"]["k"] if t == "msg" else t
+        S.setdefault("by_kind", {})
+        for k in (ev.get("kinds") or [kind]):
+            S["by_kind"][k] = S["by_kind"].get(k, 0) + 1
         for o in real_outs:
             if o["k"] != "reply" or "obs" not in o:
                 continue
@@ -489,12 +615,7 @@ class Session:
                     S["final_observations"] = S.get("final_observations", 0) + 1
                     if self.bonus_seen[k] > 1:
                         self.fail({"C04", "C05"}, "two-finals", f"connection {c} received two final observations in one episode", self.replay())
-        # ---- state comparison
         rs = self.real_state()
-        if self.model_state is not None and not self.broken:
-            mc = self.model_state_canon(self.model_state)
-            self.compare_state(kind, cid, before, rs, mc)
-        # background tasks must stay alive
         missing = {"run_game", "_assign_rewards_episode_end", "_reset_game"} - set(rs["tasks_alive"])
         if missing:
             tags = {"C01"}
@@ -504,57 +625,52 @@ class Session:
                 tags |= {"C06", "C05"}
             self.fail(tags, "task-died:" + ",".join(sorted(missing)), f"coordinator task(s) {sorted(missing)} died after {kind} on {cid}", self.replay())
             self.broken = True
-        # C01 (iii): an unanswered request must be parked at a documented, unmet barrier
+        # C01 (iii): an unanswered request must be parked at a documented, unmet barrier.  The barriers are
+        # evaluated over the agents that are really there (joined and still connected), not over whatever the
+        # coordinator still has in its tables
         co = self.coord
+        present = [a for a in co.agents if not self.sim.conns[a[1] - 40000].task.done()]
         for c, m in list(self.awaiting.items()):
             addr = PEER(c)
             why = None
-            if m["k"] == "join" and addr in co.agents and len(co.agents) != co._min_required_players:
+            if m["k"] == "join" and addr in co.agents and len(present) != co._min_required_players:
                 why = "start"
-            elif m["k"] == "game" and addr in co.agents and co._episode_ends.get(addr) and not all(co._episode_ends.values()):
+            elif m["k"] == "game" and addr in co.agents and co._episode_ends.get(addr) and not all(co._episode_ends.get(a) for a in present):
                 why = "end"
-            elif m["k"] == "reset" and addr in co.agents and (not all(co._reset_requests.values()) or len(co.agents) != co._min_required_players):
+            elif m["k"] == "reset" and addr in co.agents and (not all(co._reset_requests.get(a) for a in present) or len(present) != co._min_required_players):
                 why = "reset"
             if why is None:
-                tags = {"C01"} | ({"C09"} if m["k"] == "bad" else set()) | ({"C06"} if m["k"] in ("join", "game") else set()) | ({"C07"} if m["k"] == "reset" else set()) | ({"C10"} if kind in ("eof", "readerr", "quit") else set())
+                tags = {"C01"} | ({"C09"} if m["k"] == "bad" else set()) | ({"C06"} if m["k"] in ("join", "game") else set()) | ({"C07"} if m["k"] == "reset" else set()) | ({"C10"} if kind in ("eof", "readerr", "quit", "burst") else set())
                 self.fail(tags, f"unanswered:{m['k']}", f"request {m['k']} of connection {c} is unanswered at quiescence although no documented barrier is unmet (after {kind} on {cid})", self.replay())
                 self.broken = True
             else:
                 S.setdefault("parked", {})
                 S["parked"][why] = S["parked"].get(why, 0) + 1
 
-    def compare_state(self, kind, cid, before, rs, mc):
-        tags_for = {"slots": {"C18"}, "ids": {"C10", "C06"}, "startEv": {"C06"}, "conns": {"C01", "C18"}}
-        for f in ("slots", "ids", "startEv", "conns"):
-            if rs[f] != mc[f]:
-                tags = set(tags_for[f])
-                if kind in ("eof", "readerr", "quit", "arm"):
-                    tags.add("C10")
-                if kind == "bad":
-                    tags.add("C09")
-                self.fail(tags, f"state:{f}:{kind}", f"after {kind} on {cid}: coordinator {f} = {rs[f]}, model {mc[f]}", self.replay())
-                self.broken = True
-                return
-        ra, ma = dict((c, a) for c, a in rs["agents"]), dict((c, a) for c, a in mc["agents"])
-        field_tags = {"view": {"C12", "C07"}, "steps": {"C04", "C07"}, "status": {"C04"}, "ended": {"C04", "C06"},
-                      "resetReq": {"C07"}, "reward": {"C05"}, "paid": {"C05"}, "obs": {"C15", "C04"},
-                      "traj_len": {"C16"}, "traj_rewards": {"C16"}, "traj_states": {"C16"}, "name": {"C19"}, "role": {"C19"}}
-        for c in ra:
-            for f, tg in field_tags.items():
-                if ra[c][f] != ma[c][f]:
-                    tags = set(tg)
-                    if kind == "bad":
-                        tags.add("C09")
-                    if kind in ("eof", "readerr", "quit", "arm") or c != cid:
-                        tags.add("C10")
-                    if c != cid:
-                        tags.add("C12")
-                    if kind == "reset" or (f in ("view", "steps", "status", "ended") and not ra[c]["resetReq"] and c != cid):
-                        tags.add("C07")
-                    self.fail(tags, f"agent:{f}:{kind}:{'self' if c == cid else 'other'}",
-                              f"after {kind} on {cid}: agent {c} {f} = {str(ra[c][f])[:200]} in the coordinator, {str(ma[c][f])[:200]} in the model", self.replay())
-                    self.broken = True
-                    return
+
+def replay_events(sess, events):
+    """re-executes a recorded event log (bursts regrouped by their id)"""
+    i = 0
+    while i < len(events):
+        ev = dict(events[i])
+        if "raw_hex" in ev:
+            ev["raw_bytes"] = bytes.fromhex(ev["raw_hex"])
+        if "burst" in ev:
+            group = [ev]
+            j = i + 1
+            while j < len(events) and events[j].get("burst") == ev["burst"]:
+                e2 = dict(events[j])
+                if "raw_hex" in e2:
+                    e2["raw_bytes"] = bytes.fromhex(e2["raw_hex"])
+                group.append(e2)
+                j += 1
+            sess.do_burst(group, [g["burst_gap"] for g in group])
+            i = j
+        else:
+            sess.do(ev)
+            i += 1
+        if sess.broken:
+            break
 
 
 # -------------------------------------------------------------------------------- session scripts
@@ -674,6 +790,25 @@ def run_sessions(drv, rng, defender_tables, on_fail, stats, n_sessions, n_events
             for _ in range(n_events):
                 if sess.broken:
                     break
+                if rng.random() < prof.get("burst", 0.0):
+                    # several events into the same run of the event loop, separated by a few loop iterations
+                    evs, used = [], set()
+                    for _k in range(rng.choice([2, 2, 3])):
+                        e = sc.next()
+                        if e["c"] in used or e["t"] == "arm":
+                            continue
+                        used.add(e["c"])
+                        evs.append(e)
+                    if len(evs) >= 2:
+                        r0 = evs[0].get("roll", 0.5)
+                        for e in evs:
+                            if "roll" in e:
+                                e["roll"] = r0
+                        sess.do_burst(evs, [rng.choice([0, 0, 1, 2, 3, 4, 6, 9]) for _ in evs])
+                        continue
+                    if evs:
+                        sess.do(evs[0])
+                        continue
                 sess.do(sc.next())
             stats["sessions"] = stats.get("sessions", 0) + 1
             if len(stats.setdefault("samples", [])) < 2:
